@@ -140,13 +140,18 @@ def manifestOp (st : St) (cfg : Cfg) (c : String) (Es : Int) (path : Path) (rSho
         let unchanged := (kv t "fp") == some "same"
         let implAcc := (kv t "r") == some "1"
         let mon1 := { st.mon with obs := insert st.mon.obs c newObs }
-        let mon2 := if isAnn && implAcc then { mon1 with annE := insert mon1.annE c E } else mon1
+        -- the pending entry (if any) belongs to the last accepted announce that *assigned* shards
+        let assignedAnn := match path with | .announce _ _ _ assigned _ => assigned | _ => false
+        let mon2 := if assignedAnn && implAcc && newObs.pending.isSome then { mon1 with annE := insert mon1.annE c E } else mon1
         let v1 := match judge E wall mn mx oldObs newObs unchanged with
           | some why => "viol:" ++ why
           | none => "ok"
         let table := (kv t "all").map parsePendingList
+        -- the scheduler pass of an announce only runs when the announce was accepted and went on to
+        -- schedule a fetch (its own entry is then in the table)
+        let passRan := assignedAnn && implAcc && newObs.pending.isSome
         let v2 := match table with
-          | some tb => if v1 == "ok" then judgeTable mon2 wall tb else v1
+          | some tb => if v1 == "ok" && passRan then judgeTable mon2 wall tb else v1
           | none => v1
         let mon3 := match table with
           | some tb => updAtt mon2 tb
